@@ -19,6 +19,7 @@ type rtCase struct {
 	Response interface{} `json:"response"`
 	Mutation string      `json:"mutation,omitempty"`
 	Seed     int64       `json:"seed,omitempty"`
+	HelperLeg bool       `json:"helper_leg,omitempty"`
 }
 
 func bindingFor(c *conv.Case) func(string) string {
@@ -261,6 +262,7 @@ func run(prop, tier string, seed int64, outDir, replay string) (*core.Result, er
 	res.Extra["programs_compiled"] = len(b.Progs)
 	nt := newNumTable()
 	obsTerms := map[string][]string{} // program -> rt_obs terms
+	modelObs := 0
 	for _, t := range tasks {
 		m := metas[t.ID]
 		r := results[t.ID]
@@ -282,7 +284,15 @@ func run(prop, tier string, seed int64, outDir, replay string) (*core.Result, er
 					re = "(Some " + t + ")"
 				}
 			}
-			obsTerms[m.p.Name] = append(obsTerms[m.p.Name], fmt.Sprintf("{| ro_type := %s; ro_json := %s; ro_result := %s; ro_remarshal := %s |}", coqStr(m.p.Em.Response[m.op]), jt, rr, re))
+			term := fmt.Sprintf("{| ro_type := %s; ro_json := %s; ro_result := %s; ro_remarshal := %s |}", coqStr(m.p.Em.Response[m.op]), jt, rr, re)
+			// the kernel evaluation re-decodes an object once per embedded fragment struct at
+			// every level: very large observations are judged by the Go oracle only
+			if len(term) <= 60000 || tier == "thorough" && len(term) <= 200000 {
+				obsTerms[m.p.Name] = append(obsTerms[m.p.Name], term)
+				modelObs++
+			} else {
+				res.Dist("model:observation-too-large-for-kernel-run")
+			}
 		}
 		var rawAny interface{}
 		_ = json.Unmarshal(m.raw, &rawAny)
@@ -447,7 +457,7 @@ func run(prop, tier string, seed int64, outDir, replay string) (*core.Result, er
 		}
 		res.CasesV = append(res.CasesV, fn)
 	}
-	res.ModelCases = len(tasks)
+	res.ModelCases = modelObs
 	return res, nil
 }
 
